@@ -554,6 +554,23 @@ pub fn main(opts: &Opts) {
     );
     if let Some(path) = &opts.replay {
         let j: J = serde_json::from_str(&std::fs::read_to_string(path).expect("read")).expect("json");
+        if let Some(b) = j.get("burst") {
+            let g = |k: &str| b.get(k).and_then(|x| x.as_u64()).unwrap_or(1) as usize;
+            let (held, burst) = (g("held"), g("burst"));
+            match flow_burst(held, burst, g("conn_buf"), g("sess_buf")) {
+                Ok((got, trace)) => {
+                    for l in trace {
+                        println!("{}", l);
+                    }
+                    println!("REPLAY: {} of {} transfers written{}", got, held, if got < held { ": property violated [wedged-by-a-burst-of-flows]" } else { ": property holds on this scenario" });
+                    std::process::exit(if got < held { 1 } else { 0 });
+                }
+                Err(e) => {
+                    println!("REPLAY: scenario failed: {}", e);
+                    std::process::exit(1);
+                }
+            }
+        }
         if let Some(item) = j.get("item").and_then(Item::from_json) {
             std::env::set_var("VERIF_TRACE", "1");
             let obs = run(&item);
@@ -606,9 +623,82 @@ pub fn main(opts: &Opts) {
             report.finding(Finding { kind: "violation", key, description: desc, replay: json!({"property": "C15", "module": "hostile", "item": item.to_json(), "ops": format!("{:?}", obs.ops)}) });
         }
     }
+    flow_bursts(&mut rng, opts, &mut report);
     header_correspondence(&mut rng, opts, &mut report);
     report.write(&opts.report);
     println!("hostile: {} cases, {} non-trivial, {} findings", report.evaluations, report.nontrivial.len(), report.findings.len());
+}
+
+/// a peer that floods an endpoint whose queues are small: it keeps its window shut while the client
+/// piles up transfers, then opens it with one flow followed at once by a burst of further flows.  The
+/// client must write every transfer (neither engine may wait for the other for ever).
+fn flow_burst(held: usize, burst: usize, conn_buf: usize, sess_buf: usize) -> Result<(usize, Vec<String>), String> {
+    let rt = paused_runtime();
+    rt.block_on(async move {
+        let (cio, pio) = tokio::io::duplex(1 << 20);
+        let mut peer = Peer::new(pio);
+        let client = tokio::spawn(async move {
+            let mut conn = Connection::builder().container_id("burst").buffer_size(conn_buf).open_with_stream(cio).await.map_err(|e| format!("open: {:?}", e))?;
+            let mut session = Session::builder().buffer_size(sess_buf).begin(&mut conn).await.map_err(|e| format!("begin: {:?}", e))?;
+            let mut sender = Sender::builder().name("burst").target("q").sender_settle_mode(fe2o3_amqp_types::definitions::SenderSettleMode::Settled).attach(&mut session).await.map_err(|e| format!("attach: {:?}", e))?;
+            for k in 0..held {
+                match tokio::time::timeout(Duration::from_secs(5), sender.send(format!("m{}", k))).await {
+                    Ok(Ok(_)) => {}
+                    other => return Err(format!("send {}: {:?}", k, other.map(|r| r.map(|_| ())))),
+                }
+            }
+            tokio::time::sleep(Duration::from_secs(30)).await;
+            let _ = tokio::time::timeout(Duration::from_secs(5), sender.close()).await;
+            let _ = tokio::time::timeout(Duration::from_secs(5), session.end()).await;
+            let _ = tokio::time::timeout(Duration::from_secs(5), conn.close()).await;
+            Ok::<(), String>(())
+        });
+        peer.accept_open(&PeerOpen::default()).await.map_err(|e| format!("{:?}", e))?;
+        let (_, begin) = peer.accept_begin(0, 0, 0, 2048).await.map_err(|e| format!("{:?}", e))?;
+        let _ = peer.accept_attach(0, 9, None, ReceiverSettleMode::First).await.map_err(|e| format!("{:?}", e))?;
+        let grant = Flow { next_incoming_id: Some(begin.next_outgoing_id), incoming_window: 0, next_outgoing_id: 0, outgoing_window: 2048, handle: Some(Handle(9)), delivery_count: Some(0), link_credit: Some(10_000), available: None, drain: false, echo: false, properties: None };
+        peer.send(0, Performative::Flow(grant), &[]).await.map_err(|e| format!("{:?}", e))?;
+        // let the client pile its transfers up behind the shut window
+        tokio::time::sleep(Duration::from_millis(500)).await;
+        // one write: the flow that opens the window and the burst behind it
+        let mut bytes = vec![];
+        for _ in 0..(1 + burst) {
+            let f = Flow { next_incoming_id: Some(begin.next_outgoing_id), incoming_window: 100_000, next_outgoing_id: 0, outgoing_window: 2048, handle: None, delivery_count: None, link_credit: None, available: None, drain: false, echo: false, properties: None };
+            bytes.extend_from_slice(&Peer::encode_frame(0, &Performative::Flow(f), &[]));
+        }
+        peer.send_raw(&bytes).await.map_err(|e| format!("{:?}", e))?;
+        let mut got = 0usize;
+        peer.recv_timeout = Duration::from_secs(5);
+        while got < held {
+            match peer.recv().await {
+                Ok(Incoming::Frame { performative: Performative::Transfer(_), .. }) => got += 1,
+                Ok(_) => {}
+                Err(_) => break,
+            }
+        }
+        client.abort();
+        Ok((got, peer.trace_lines().into_iter().rev().take(12).rev().collect()))
+    })
+}
+
+fn flow_bursts(rng: &mut Rng, opts: &Opts, report: &mut Report) {
+    let n = if opts.thorough() { 60 } else { 8 };
+    for k in 0..n {
+        let (held, burst, cb, sb) = if k == 0 { (64usize, 16usize, 1usize, 1usize) } else { (rng.range(2, 80) as usize, rng.range(0, 40) as usize, *rng.pick(&[1usize, 2, 8]), *rng.pick(&[1usize, 2, 8])) };
+        report.evaluations += 1;
+        report.count("flow_bursts");
+        report.nontrivial_case(fnv(&format!("burst{}/{}/{}/{}", held, burst, cb, sb)));
+        match flow_burst(held, burst, cb, sb) {
+            Ok((got, trace)) if got < held => report.finding(Finding {
+                kind: "violation",
+                key: "wedged-by-a-burst-of-flows".into(),
+                description: format!("{} transfers were held behind a shut window; the peer opened it and sent {} more flows in the same write (connection buffer {}, session buffer {}): only {} transfers were ever written, the endpoint is stuck", held, burst, cb, sb, got),
+                replay: json!({"property": "C15", "module": "hostile", "burst": {"held": held, "burst": burst, "conn_buf": cb, "sess_buf": sb}, "trace": trace}),
+            }),
+            Ok(_) => {}
+            Err(e) => report.finding(Finding { kind: "violation", key: "flow-burst-scenario-failed".into(), description: e, replay: json!({"property": "C15", "module": "hostile", "burst": {"held": held, "burst": burst, "conn_buf": cb, "sess_buf": sb}}) }),
+        }
+    }
 }
 
 /// the two frame decoders' header step on short byte strings, against the model
